@@ -137,7 +137,10 @@ def e2e_one(chk, sseed):
                     chk.violation("byhash-requested-when-off", replay, f"{cn}: by-hash does not apply but {bh_reqs[0]} was requested")
                 if bh_paths:
                     chk.violation("byhash-created-when-off", replay, f"{cn}: by-hash does not apply but {bh_paths[0]} exists")
-                if pattern == "no-canonical" and res.exit == 0 and uniform:
+                # (an index of size 0 - an empty component - is not fetched at all, C10: only blocked files that the tool has to
+                # fetch can make the run fail)
+                blocked = [k for k, _, f in plan if f == "404" and k in store and len(store[k][0]) > 0]
+                if pattern == "no-canonical" and res.exit == 0 and uniform and blocked:
                     chk.violation("exit0-without-canonical", replay, "canonical URLs unavailable, by-hash off, yet exit 0")
             else:
                 if pattern in ("all", "no-byhash", "first-algo-missing", "byhash-500", "byhash-broken") and res.exit != 0 and uniform:
